@@ -813,7 +813,11 @@ iwrc iwal_savepoint_exl(struct iwkv *iwkv, bool sync) {
   if (!wal) {
     return 0;
   }
-  return _savepoint_exl(wal, 0, sync);
+  iwrc rc = _lock(wal);
+  RCRET(rc);
+  rc = _savepoint_exl(wal, 0, sync);
+  IWRC(_unlock(wal), rc);
+  return rc;
 }
 
 void iwal_shutdown(struct iwkv *iwkv) {
